@@ -58,6 +58,8 @@ func init() {
 			"(R7) close frames are written under the same mutex as data frames. " +
 			"It does not decide acceptance of whole output traces by the protocol automata (interleavings of engine events with client messages).",
 		Mutants: []Mutant{
+			{Name: "InitFunc skipped for a connection_init without payload (reverts the F42 fix)", File: "execution/subscription/websocket/protocol_graphql_transport_ws.go", Rule: "C19-R12", Key: "ProtocolGraphQLTransportWSHandler.handleInit/ack-only-after-the-init-func",
+				Old: "\tif p.initFunc != nil {\n", New: "\tif p.initFunc != nil && len(payload) > 0 {\n"},
 			{Name: "connected test made before the write lock is taken (reverts part of the F39 fix)", File: "execution/subscription/websocket/client.go", Rule: "C19-R9", Key: "Client.WriteBytesToClient/connected-test-in-the-critical-section-of-the-write",
 				Old: "\tc.writeMu.Lock()\n\tif !c.IsConnected() {\n\t\tc.writeMu.Unlock()\n\t\treturn subscription.ErrTransportClientClosedConnection\n\t}\n", New: "\tif !c.IsConnected() {\n\t\treturn subscription.ErrTransportClientClosedConnection\n\t}\n\tc.writeMu.Lock()\n"},
 			{Name: "close frame written without marking the client closed under the lock (reverts part of the F39 fix)", File: "execution/subscription/websocket/client.go", Rule: "C19-R9", Key: "Client.writeFrame/close-frame-writer-marks-closed-under-the-lock",
@@ -403,6 +405,7 @@ func c19LockAnalysis(p *fw.Prog) *fw.LockAnalysis {
 func runC19(r *fw.Run) {
 	defer c19ReadTimeoutStatePair(r)
 	defer c19FramesDecodedWhole(r)
+	defer c19InitFuncAlwaysConsulted(r)
 	defer c19NoDataFrameAfterCloseFrame(r)
 	defer c19CompleteOnlyForActiveIds(r)
 	defer c19IdReleasedBeforeTerminalMessage(r)
@@ -2108,4 +2111,70 @@ func c19IdReleasedBeforeTerminalMessage(r *fw.Run) {
 	}
 	in.Run(nil)
 	r.Expect("C19-R11", "terminal events emitted by handleNonSubscriptionOperation", n, 2)
+}
+
+// c19InitFuncAlwaysConsulted (R12): the InitFunc decides whether a connection is accepted (it is where authentication is
+// checked). Both protocol handlers acknowledge connection_init in handleInit; the acknowledgement must be reached only after
+// the InitFunc was called without error, or on the edge where no InitFunc is configured (initFunc == nil). A guard that
+// also looks at the payload (initFunc != nil && len(payload) > 0) acknowledges a connection_init *without payload* without
+// asking the InitFunc: a client that omits the payload bypasses the check.
+func c19InitFuncAlwaysConsulted(r *fw.Run) {
+	p := r.Prog
+	r.Rule("C19-R12", "in both protocol handlers the connection_ack of handleInit is reached only after the InitFunc was called, or on the edge where no InitFunc is configured — never because the init payload is empty")
+	n := 0
+	for _, fi := range p.Funcs("websocket") {
+		if fi.Obj.Name() != "handleInit" {
+			continue
+		}
+		info := fi.Info()
+		isInitFunc := func(e ast.Expr) bool {
+			fv, _ := fw.Field(info, e)
+			return fv != nil && fv.Name() == "initFunc"
+		}
+		ord := 0
+		in := fw.NewInterp(fi)
+		in.H = fw.Hooks{
+			Cond: func(e ast.Expr, branch bool, st *fw.State) {
+				op, leaves := fw.NNF(info, e, branch)
+				if op == "mixed" {
+					return
+				}
+				nilLeaf, other := false, false
+				for _, a := range leaves {
+					if a.Kind == "Nil" && isInitFunc(a.X) {
+						nilLeaf = true
+					} else {
+						other = true
+					}
+				}
+				// "no InitFunc" is established by the atom itself, by a conjunction containing it, or by a disjunction of nothing else
+				if nilLeaf && (op != "or" || !other) {
+					st.Set("settled") // one correlated fact "consulted ∨ none configured": it survives the join of the two edges
+				}
+			},
+			Node: func(nd ast.Node, st *fw.State) {
+				c, ok := nd.(*ast.CallExpr)
+				if !ok {
+					return
+				}
+				if isInitFunc(c.Fun) {
+					st.Set("settled")
+				}
+				if !in.Final() {
+					return
+				}
+				// the acknowledgement: HandleWriteEvent with a …ConnectionAck message type
+				if fn := fw.Callee(info, c); fn != nil && fn.Name() == "HandleWriteEvent" && len(c.Args) > 0 {
+					if co := fw.ConstObj(info, c.Args[0]); co != nil && strings.HasSuffix(co.Name(), "ConnectionAck") {
+						n++
+						ord++
+						r.Check(st.Must("settled"), "C19-R12", fi.Name()+"/ack-only-after-the-init-func#"+itoa(ord), p.Pos(c.Pos()), "connection_ack in "+fi.Name()+" is written only after the InitFunc was consulted (or none is configured)",
+							"the acknowledgement is reachable with an InitFunc configured but not called: a connection_init without payload is acknowledged without the check the InitFunc performs (authentication) — the client simply omits the payload")
+					}
+				}
+			},
+		}
+		in.Run(nil)
+	}
+	r.Expect("C19-R12", "connection_ack writes in handleInit", n, 2)
 }
